@@ -1,4 +1,4 @@
-CONSTANTS Scope = "small" Mutant = "none"
+CONSTANTS Scope = "small" Mutant = "none" DepEnumOffered = FALSE
 SPECIFICATION Spec
 INVARIANT Inv_ExactlyOneCall
 INVARIANT Inv_PathArity
